@@ -745,6 +745,52 @@ static void opEnv(const HxLine& l)
   hxEndLine();
 }
 
+// execfail <kind> <streams>: the executable cannot be started (execvpe fails in the vfork child:
+// message `<program>: <strerror>` on stderr, _exit(EXIT_FAILURE)).  kind: path = a file that does not exist,
+// empty = the command line "", blank = the command line " "
+static void opExecFail(const HxLine& l)
+{
+  const char* kind = l.tok[1];
+  uint streams = (uint)hxNum(l, 2);
+  static const char* missing = "/nonexistent-nstd-verif/args-child";
+  Capture cap(true);
+  bool diverted = !(streams & 1);
+  if(diverted && !divertStdout())
+  {
+    printf("FAULT tmpfile");
+    hxEndLine();
+    return;
+  }
+  Process p;
+  bool ok;
+  if(strcmp(kind, "path") == 0)
+  {
+    char* argv[] = {(char*)missing, (char*)"a"};
+    ok = p.open(String(missing, strlen(missing)), 2, argv, streams);
+  }
+  else if(strcmp(kind, "empty") == 0)
+    ok = p.open(String(), streams);
+  else
+    ok = p.open(String(" ", 1), streams);
+  uint pipes = pipesOf(p);
+  bool drained = true, joined = false;
+  uint32 exitCode = 9999;
+  if(ok)
+  {
+    if(streams & 3)
+      drained = drain(p, streams, cap);
+    joined = p.join(exitCode);
+  }
+  if(diverted)
+    restoreStdout(cap);
+  printf("xf ok=%d pipes=%u | joined=%d exit=%u eof=%d out=", ok ? 1 : 0, pipes, joined ? 1 : 0, (unsigned)exitCode, drained ? 1 : 0);
+  hxPutHex((const char*)cap.out, cap.out.length());
+  printf(" err=");
+  hxPutHex((const char*)cap.err, cap.err.length());
+  printf(" after=%u", pipesOf(p) | (p.pid ? 8u : 0u));
+  hxEndLine();
+}
+
 // ---- descriptor leaks --------------------------------------------------------------------------------
 static int countFds()
 {
@@ -829,6 +875,8 @@ int main(int argc, char** argv)
       opKillTest(l);
     else if(hxIs(l, "fds", 0))
       opFds();
+    else if(hxIs(l, "execfail", 2))
+      opExecFail(l);
     else if(l.ntok >= 2 && strcmp(l.tok[0], "env") == 0)
       opEnv(l);
     else
